@@ -11,6 +11,7 @@ CONSTANTS
     SnapshotOnPush = TRUE
     WithLazy = FALSE
     WithCurrent = TRUE
+    Panics = TRUE
     Emit = FALSE
 VIEW tview
 INVARIANTS SamplerOncePerTrace DecisionGoverns UnsampledSilent SampledConsistent NoTraceNoParent FrameCarries
